@@ -83,8 +83,10 @@ def run_tlc(*a, **kw):
     """tlc.run, repeated once when TLC trips over its own exit race (IllegalStateException: Shutdown in progress
     after 'Model checking completed'): a JVM quirk, not a verdict."""
     res = tlc.run(*a, **kw)
-    if res.rc != 0 and not res.violated and ("Shutdown in progress" in res.stdout or res.rc in (137, -9)):
-        res = tlc.run(*a, **kw)          # also once more when the JVM was killed from outside (OOM killer)
+    tries = 0
+    while tries < 3 and res.rc != 0 and not res.violated and ("Shutdown in progress" in res.stdout or res.rc in (137, -9)):
+        tries += 1                       # killed from outside (OOM killer, a stray pkill) or TLC's exit race: run it again
+        res = tlc.run(*a, **kw)
     return res
 
 
